@@ -7,7 +7,7 @@ checked: pause origin, frame addresses, kind, real source, and the ACK being
 sent exactly in the last iteration."""
 from ..common import Report, finish
 from ..facts import AnalysisBroken
-from ..terms import C, ZERO, short, is_const, lin_of, Lin, INF, term_of_lin
+from ..terms import C, ZERO, short, is_const, lin_of, Lin, INF, term_of_lin, mk_cat
 from .. import mem
 from .dispatch import analyse, OP, OPNAME, fail_obligations, frame_bytes
 from .c03 import own_mac_byte
@@ -31,6 +31,7 @@ def run(tier):
     rep.rule('R06.3', 'Probe/Train: Ethernet source/destination = descriptor source/destination, kind as requested, real source = own MAC', floor=20)
     rep.rule('R06.4', 'ACK: sent exactly in the last iteration, after the probe, sequence = the Emit\'s, Ethernet destination = apparent mapper, real destination = mapper', floor=8)
     rep.rule('R06.5', 'an Emit whose sender may be the active mapper is executed: every path through the Emit cell walks the descriptors (except out-of-memory / sender known not to be the mapper)', floor=2)
+    rep.rule('R06.6', 'trip count = min(n, capacity) with n the Emit\'s big-endian descriptor count: executed iterations have k < n; the loop ends only at k >= n or k >= capacity', floor=3)
     for mtu_ok in ([True] if tier == 'quick' else [True, False]):
         fs = FrameSetup(prog, mtu_ok=mtu_ok)
         fs.keep_iter_states = True
@@ -64,6 +65,21 @@ def run(tier):
             rep.check(okb, 'R06.1', 'loop|trip-count' + tag,
                       'an iteration with index %s is executed although a frame can carry only floor((MTU-34)/14) = %s descriptors' % (st.dom(k), st.dom(cap)),
                       function='parseEmit', file=fnf, sample={'iteration_index': repr(st.dom(k)), 'capacity': repr(st.dom(cap))} if len(rep.samples) < 4 else None)
+        # the number of descriptors executed is the Emit's own count n (big-endian at octets 32..33), cut to the capacity:
+        # every executed iteration has k < n, and the loop is left through its condition only once k >= n or k >= capacity
+        n_req = mk_cat((('in', 'frame', 33), ('in', 'frame', 32)))
+        for kind, trace, st in iters:
+            rep.check(st.prove_lt(k, n_req), 'R06.6', 'loop|within-count' + tag,
+                      'iteration %s is executed although it is not known to be below the Emit\'s descriptor count BE16(frame[32..33]) = %s: '
+                      'more descriptors are executed than the Emit carries' % (st.dom(k), st.dom(n_req)), function='parseEmit', file=fnf)
+        exits = info.get('exit_snaps') or []
+        if not exits:
+            raise AnalysisBroken('no exit state recorded for the Emit loop')
+        for st in exits:
+            done = st.prove_le(n_req, k) or st.prove_le(cap, k)
+            rep.check(done, 'R06.6', 'loop|complete' + tag,
+                      'the descriptor loop is left after %s iteration(s) although neither the Emit\'s count BE16(frame[32..33]) = %s nor the capacity %s is known to be reached: '
+                      'descriptors the Emit carries are not executed' % (st.dom(k), st.dom(n_req), st.dom(cap)), function='parseEmit', file=fnf)
         # an Emit is executed whenever its sender may be the active mapper: every path through the Emit cell reaches the
         # descriptor loop, unless the responder is out of memory or knows the sender is NOT the active mapper
         # (a mapper is recorded and its real address differs from the Emit's real source)
